@@ -16,7 +16,7 @@ import ast
 import re
 from typing import Any, Dict, List, Optional, Set, Tuple
 
-from ..kit import Kit, is_call, key, norm
+from ..kit import Kit, is_call, key, norm, atom_call_true
 from ..index import dotted, walk_shallow, unparse, names_read, NOFOLD
 from ..absint import (evaluate, product, Obj, Unknown, _Raise, NotEvaluable)
 from ..cfg import Node
@@ -565,6 +565,76 @@ def r3_file_start(k: Kit) -> None:
               fi.loc(fi.node), g.describe_path(w) if w else None)
 
 
+def canonicalize_rules(k: Kit, rule: str) -> None:
+    """_canonicalize_host: the max-dots bound and the permitted-CNAME test."""
+    rep = k.rep
+    idx = k.idx
+    fi = k.func('connection._canonicalize_host')
+    g = k.cfg(fi)
+    # (1) CanonicalizeMaxDots: names with at most that many dots are
+    # canonicalised
+    stmt = None
+    for st in fi.node.body:
+        if isinstance(st, ast.If) and 'canonicalize_max_dots' in unparse(st.test):
+            stmt = st
+    if stmt is None:
+        rep.error(rule, key(fi, 'max dots test'), 'not found')
+    else:
+        bad = None
+        for host, md, skipped in (('db', 1, False), ('db.prod', 1, False),
+                                  ('a.b.c', 1, True), ('db', 0, False),
+                                  ('db.prod', 0, True), ('a.b.c', 2, False),
+                                  ('a.b.c.d', 2, True)):
+            try:
+                o = evaluate(idx, fi.module, [stmt], {},
+                             {'host': host, 'options': Obj('OPT'),
+                              'OPT.canonicalize_max_dots': md,
+                              'logger': Obj('LOG')},
+                             lambda a, b, c: Obj('x'))
+            except NotEvaluable as exc:
+                rep.error(rule, key(fi, 'not-evaluable'), str(exc))
+                return
+            got = o.kind == 'return'
+            if got != skipped and bad is None:
+                bad = (f'host {host!r} with CanonicalizeMaxDots {md}: '
+                       f'{"skipped" if got else "canonicalised"}, ssh '
+                       f'{"skips" if skipped else "canonicalises"} it')
+        rep.check(bad is None, rule, key(fi, 'max dots bound'),
+                  '7 (name, limit) pairs', f'{bad}: `Match canonical` and '
+                  '`Host *.domain` blocks are not applied to names sitting '
+                  'exactly on the limit', fi.loc(stmt))
+    # (2) a CNAME is followed only if the rule's source pattern matches
+    # the queried name and its target pattern matches the CNAME
+    rets = [n for n in g.nodes if isinstance(n.ast, ast.Return) and
+            n.ast.value is not None and dotted(n.ast.value) == 'cname']
+    rep.floor(rule, 'CNAME returns', len(rets), 1)
+    unpack = None
+    for x in ast.walk(fi.node):
+        if isinstance(x, ast.Assign) and isinstance(x.targets[0], ast.Tuple) \
+                and 'patterns' in names_read(x.value):
+            unpack = [dotted(e) for e in x.targets[0].elts]
+    for r in rets:
+        ok = bool(unpack) and len(unpack) == 2
+        w1 = w2 = None
+        if ok:
+            w1 = g.guarded_by(r.id, atom_call_true(
+                'matches', unpack[0],
+                lambda c: c.args and dotted(c.args[0]) == 'canon_host'))
+            w2 = g.guarded_by(r.id, atom_call_true(
+                'matches', unpack[1],
+                lambda c: c.args and dotted(c.args[0]) == 'cname'))
+        rep.check(ok and w1 is None and w2 is None, rule,
+                  key(fi, 'permitted CNAME rule'),
+                  'source pattern matches the queried name and target '
+                  'pattern matches the CNAME',
+                  'a CNAME is followed without its name being matched '
+                  'against the target pattern of the rule (or the queried '
+                  'name against the source pattern): a spoofed CNAME to any '
+                  'host is accepted and the host key is looked up under the '
+                  'attacker-chosen name', k.loc(fi, r),
+                  g.describe_path(w1 or w2) if (w1 or w2) else None)
+
+
 def run(idx, rep, tier):
     k = Kit(idx, rep)
     rep.assumptions += NOT_DECIDED
@@ -597,3 +667,6 @@ def run(idx, rep, tier):
     build_pattern_witnesses(k, 'C18.R7')
     for o in rep.obligations[before:]:
         o.rule = 'C18.R7'
+    rep.rule('C18.R8', 'CanonicalizeMaxDots bound and CanonicalizePermitted'
+             'CNAMEs test of _canonicalize_host (evaluated / guarded)')
+    canonicalize_rules(k, 'C18.R8')
